@@ -1309,14 +1309,24 @@ func (pc *PeerConnection) SetRemoteDescription(desc SessionDescription) error {
 					transceiver.setDirection(RTPTransceiverDirectionInactive)
 				}
 			case direction == RTPTransceiverDirectionSendrecv:
-				if transceiver.Direction() == RTPTransceiverDirectionSendonly {
+				switch {
+				case transceiver.Direction() == RTPTransceiverDirectionSendonly:
 					transceiver.setDirection(RTPTransceiverDirectionSendrecv)
-				} else if transceiver.Direction() == RTPTransceiverDirectionInactive {
+				case transceiver.Direction() == RTPTransceiverDirectionInactive:
 					transceiver.setDirection(RTPTransceiverDirectionRecvonly)
+				case transceiver.Direction() == RTPTransceiverDirectionRecvonly &&
+					transceiver.Sender() != nil && transceiver.Sender().Track() != nil:
+					// the remote resumes receiving after a sendonly (hold) re-offer
+					transceiver.setDirection(RTPTransceiverDirectionSendrecv)
 				}
 			case direction == RTPTransceiverDirectionSendonly:
-				if transceiver.Direction() == RTPTransceiverDirectionInactive {
+				// RFC 3264 S6.1: a sendonly offer is answered recvonly or inactive
+				switch transceiver.Direction() {
+				case RTPTransceiverDirectionInactive, RTPTransceiverDirectionSendrecv:
 					transceiver.setDirection(RTPTransceiverDirectionRecvonly)
+				case RTPTransceiverDirectionSendonly:
+					transceiver.setDirection(RTPTransceiverDirectionInactive)
+				default:
 				}
 			}
 
